@@ -480,6 +480,62 @@ def k2_forms(h: str) -> bool:
     return ob.post(_k2_forms_check(_k2_text(h)))
 
 
+K2C_ALPHABET = '@[]a'
+FORMS = (ref.NAKED, ref.SOFT, ref.HARD)
+
+
+def _form(f: int) -> str:
+    return ref.NAKED if f == 0 else (ref.SOFT if f == 1 else ref.HARD)
+
+
+def _pre_k2c(h: str, t: str, f1: int, f2: int) -> bool:
+    c = ob.case()
+    if not _holes_ok(h, c['mask']) or len(t) > c['tlen'] or not _in_alphabet(t, K2C_ALPHABET):
+        return False
+    if not (0 <= f1 <= 2 and 0 <= f2 <= 2):
+        return False
+    s = _fill(c['mask'], h)
+    if (f1 == 0 and s == '') or (f2 == 0 and t == '') or (f1 == 0 and f2 == 0):
+        return False  # a naked fragment is not empty; two adjacent naked fragments are one fragment
+    parts = [(_form(f1), s), (_form(f2), t)]
+    if ref.reference_straddles(parts):
+        return False  # a reference split over the two fragments: outside the claim (undocumented)
+    if ob.excluded(REGION_MIXED) and ref.first_fragment_decides_wrongly(parts):
+        return False
+    return True
+
+
+def _k2_concat_check(s: str, t: str, f1: int, f2: int) -> bool:
+    from exactly_lib.impls.types.string_ import parse_string
+    from exactly_lib.util.parse.token import Token, TokenType
+    q1 = _form(f1)
+    q2 = _form(f2)
+    parts = [(q1, s), (q2, t)]
+    # the token the tokenizer delivers for the two adjacent fragments (K1: string = the contents side by side,
+    # source_string = the written text, QUOTED iff the text starts with a quote character)
+    tok = Token(TokenType.PLAIN if f1 == 0 else TokenType.QUOTED, s + t, q1 + s + q1 + q2 + t + q2)
+    if ob.case().get('oracle_bug'):
+        # seeded oracle error: only the last fragment's quoting counts
+        want = [(False, s + t)] if q2 == ref.HARD else _merge(ref.split_refs(s + t))
+        want = [w for w in want if w[1] != '']
+    else:
+        want = _pieces_of_parts(parts)
+    if _merge(_frag_list(parse_string.parse_fragments_from_token(tok))) != want:
+        return False
+    e = parse_string.parse_sym_ref_or_fragments_from_token(tok)
+    if f1 == 0 and len(want) == 1 and want[0][0]:
+        return True  # a naked whole reference with an (empty) quotation glued to it: undocumented (K3_OUTSIDE)
+    return e.is_right() and _merge(_frag_list(e.right())) == want
+
+
+def k2_concat(h: str, t: str, f1: int, f2: int) -> bool:
+    """
+    pre: _pre_k2c(h, t, f1, f2)
+    post: _
+    """
+    return ob.post(_k2_concat_check(_fill(ob.case()['mask'], h), t, f1, f2))
+
+
 def _k2_obligations(tier: str) -> List[Ob]:
     obs = []
     obs += _mask_obs(tier, 'K2:split:',
@@ -497,6 +553,23 @@ def _k2_obligations(tier: str) -> List[Ob]:
                      ['%%%%%', '@[%%%]@', '%@[%]@%'],
                      fn='k2_forms', kernel='K2', real=REAL_K2F, entry='parse_string.parse_fragments_from_token',
                      bound_suffix='; as naked, soft-quoted and hard-quoted token')
+    # two adjacent fragments: (form, text) x (form, text), forms and the second text symbolic
+    k2c_quick = [('', 2), ('%', 2), ('%%', 1), ('@[%]@', 2), ('%@[a]@', 1), ('@[a]@%', 1), ('@[%]@', 5)]
+    k2c_thorough = [('%%%', 2), ('@[%%]@', 2), ('%@[%]@%', 1), ('%%', 5)]
+    for m, tl in k2c_quick + (k2c_thorough if tier != 'quick' else []):
+        obs.append(Ob(
+            name='K2:concat:%s-t%d' % (_mask_name(m) or 'empty', tl), fn='k2_concat', case=dict(mask=m, tlen=tl),
+            kernel='K2',
+            bound=_mask_bound(m) + '; written in each of the forms naked, soft-quoted, hard-quoted and followed, without '
+                  'space, by a second fragment in each of the three forms whose text is every string of <= %d characters '
+                  'over {@, [, ], a}: hard-quoted text is constant, the other text is split into constants and '
+                  'references' % tl,
+            timeout=300, real=REAL_K2F, entry='parse_string.parse_fragments_from_token(Token(type, string, source_string))',
+            outside=('a reference split over the two fragments',
+                     'a naked whole reference with a quotation glued to it (parse_sym_ref_or_fragments_from_token only)')))
+    obs.append(Ob(name='K2:concat:seeded-oracle-error', fn='k2_concat', case=dict(mask='@[%]@', tlen=1, oracle_bug=True),
+                  kernel='K2', bound='seeded oracle error: the quoting of the last fragment decides for the whole token',
+                  timeout=300, expect=ob.REFUTE, real=REAL_K2F))
     obs.append(Ob(name='K2:split:seeded-oracle-error', fn='k2_split', case=dict(mask='@[%]@', oracle_bug=True),
                   kernel='K2', bound='seeded oracle error: `-` may be part of a symbol name', timeout=300,
                   expect=ob.REFUTE, real=REAL_K2))
@@ -803,10 +876,9 @@ def _k3_check(s: str, va: str, vb: str) -> bool:
     if want_error:
         return False
     t0 = toks[0]
-    if c.get('oracle_bug') == 'first-hard-unprotected':
-        # seeded oracle error (K3:mix): a hard-quoted fragment followed by a fragment of another form is substituted
-        pieces = (_merge(ref.split_refs(t0.string)) if ref.is_mixed_hard(t0.parts)
-                  else _pieces_of_parts(t0.parts))
+    if c.get('oracle_bug') == 'any-hard-protects-all':
+        # seeded oracle error (K3:mix): a hard-quoted fragment anywhere protects the whole token
+        pieces = (_merge([(False, t0.string)]) if ref.is_mixed_hard(t0.parts) else _pieces_of_parts(t0.parts))
     else:
         pieces = _pieces_of_parts(t0.parts, soft_protects=bug)  # seeded oracle error: soft quotes protect too
     if not _sdv_agrees(sdv, pieces, va, vb):
@@ -884,8 +956,8 @@ def _k3_obligations(tier: str) -> List[Ob]:
                            '[entry=rich: RichStringParser, entry=either: SymbolReferenceOrStringParser]',
                      stubs=(STUB_IO,), outside=K3_OUTSIDE, bound_suffix=_values_bound(), timeout=300)
     obs.append(Ob(name='K3:mix:seeded-oracle-error', fn='k3_denote',
-                  case=dict(mask="'@[A]@'&&", oracle_bug='first-hard-unprotected'), kernel='K3',
-                  bound='seeded oracle error: hard quotes protect only if the whole token is hard-quoted',
+                  case=dict(mask="\"@[A]@\"'&'&", oracle_bug='any-hard-protects-all'), kernel='K3',
+                  bound='seeded oracle error: a hard-quoted fragment anywhere in a token protects the whole token',
                   timeout=300, expect=ob.REFUTE, real=REAL_K3, stubs=(STUB_IO,)))
     obs.append(Ob(name='K3:seeded-oracle-error', fn='k3_denote', case=dict(mask='"@[A]@"&', oracle_bug=True),
                   kernel='K3', bound='seeded oracle error: soft quotes protect references too', timeout=300,
@@ -1219,6 +1291,13 @@ K5L_QUICK = [
     ('@[L]@ @[A]@!', dict(symvalues=(1, 1))),
 ]
 K5L_THOROUGH = ['!!!!', 'a \\\n!!~!', 'a !!\n!!', '! \\\n!! !', '@[L]@ "!@[A]@" !!']
+# list elements that mix hard-quoted fragments with other fragments and contain reference syntax (outside the
+# region C09-concat-quote-type, see K3MIX_QUICK): the element is one element, hard-quoted text is literal
+K5LMIX_QUICK = [
+    "'@[A]@'!! a", "a '@[L]@'!!", "\"@[A]@\"'!'!", "@[L]@ '@[A]@'!\\\n'@[B]@'!", "a@[A]@'!' !",
+    ("'@[A]@'! @[A]@", dict(symvalues=(1, 1))),
+]
+K5LMIX_THOROUGH = ["'@[A]@'!!! a", "'@[L]@'! \"@[L]@\"'!'!", "! '@[A]@@[B]@'!!"]
 K5T_QUICK = [
     ':>***', ':> *\n*', ':>~@[A]@*~', ':>*"*\n"', ' :> *a* \na',
     (':> @[A]@*', dict(symvalues=(2, 0))),
@@ -1232,6 +1311,10 @@ def _k5_obligations(tier: str) -> List[Ob]:
                     entry='parse_list.parse_list_from_token_parser(new_token_parser(source))', stubs=(STUB_IO,),
                     outside=K3_OUTSIDE + ('a list-valued symbol referenced from a token that also has quoted fragments',),
                     bound_suffix=_values_bound())
+    obs += _mask_obs(tier, 'K5:list:mix:', K5LMIX_QUICK, K5LMIX_THOROUGH, fn='k5_list', kernel='K5', real=REAL_K5L,
+                     entry='parse_list.parse_list_from_token_parser(new_token_parser(source))', stubs=(STUB_IO,),
+                     outside=K3_OUTSIDE + ('a list-valued symbol referenced from a token that also has quoted fragments',),
+                     bound_suffix=_values_bound(), timeout=300)
     obs += _mask_obs(tier, 'K5:text:', K5T_QUICK, K5T_THOROUGH, fn='k5_text', kernel='K5', real=REAL_K5T,
                      entry='RichStringParser().parse_from_token_parser(new_token_parser(source))', stubs=(STUB_IO,),
                      bound_suffix=_values_bound())
